@@ -84,6 +84,24 @@ type SignerSpec struct {
 	// an error (RSA-384 is too short for PKCS#1 v1.5 with SHA-256). Only used as a predecessor in
 	// signer histories: a failed signing call must not influence later ones.
 	FailsToSign bool
+	// CurveBits: bit size of the curve of an ECDSA signer's key (0 for the other families).
+	CurveBits int
+}
+
+// EcdsaMaxDER is the length of the longest ASN.1 DER ECDSA signature (SEQUENCE of two INTEGERs)
+// for a curve whose order has the given bit size: each INTEGER holds ceil(bits/8) magnitude
+// bytes plus a zero sign byte when bits is a multiple of 8. Written from X.690, shares nothing
+// with std/security.
+func EcdsaMaxDER(bits int) int {
+	n := (bits + 7) / 8
+	if bits%8 == 0 {
+		n++
+	}
+	body := 2 * (2 + n)
+	if body < 128 {
+		return 2 + body
+	}
+	return 3 + body
 }
 
 var (
@@ -139,6 +157,17 @@ func init() {
 	KeyRSA1024.Precompute()
 	KeyRSA2048.Precompute()
 	signerList = buildSigners()
+	ecdsaKeys := map[string]*ecdsa.PrivateKey{"ecdsa-p256": KeyP256, "ecdsa-p256-cert": KeyP256, "ecdsa-p256-int": KeyP256,
+		"ecdsa-p521": KeyP521, "ecdsa-p256-keyB": KeyP256b, "ecdsa-p224": KeyP224, "ecdsa-p384": KeyP384}
+	for i := range signerList {
+		if signerList[i].Family == "ecdsa" {
+			k := ecdsaKeys[signerList[i].Name]
+			if k == nil {
+				panic("pktgen: no key recorded for " + signerList[i].Name)
+			}
+			signerList[i].CurveBits = k.Curve.Params().BitSize
+		}
+	}
 }
 
 func keyName(s string) enc.Name {
